@@ -147,6 +147,7 @@ class Builder(object):
         self.pool, self.op = pool, op
         self.clones = clones
         self.fresh = []   # (hid, obj) registered by this build
+        self.recv_obj = None
 
     def build(self, e, path=()):
         if 'f' in e:
@@ -185,6 +186,8 @@ class Builder(object):
             return ops.FUNCS[e['fn']]
         if 'attr' in e:
             return ops.resolve(e['attr'])
+        if 'same' in e:
+            return self.recv_obj
         if 'pk' in e:
             import base64
             o = pickle.loads(base64.b64decode(e['pk']))
